@@ -201,6 +201,9 @@ def run_check(modname, tier, seed, replay_path=None, jobs=None):
     t0 = time.time()
     workdir = os.path.join(VERIF_ROOT, ".build", "run-%s-%d" % (prop, os.getpid()))
     os.makedirs(workdir, exist_ok=True)
+    # self-test runs against a scratch copy must not overwrite the evidence of /repo
+    selftest = os.path.abspath(os.environ.get("VERIF_REPO_SRC", "/repo/src")) != "/repo/src"
+    ev_dir = os.path.join(VERIF_ROOT, ".build", "selftest-evidence") if selftest else os.path.join(VERIF_ROOT, "evidence")
     if replay_path:
         with open(replay_path) as f:
             rp = json.load(f)
@@ -262,7 +265,7 @@ def run_check(modname, tier, seed, replay_path=None, jobs=None):
     n_viol = 0
     n_known = 0
     known_printed = set()
-    os.makedirs(os.path.join(VERIF_ROOT, "evidence", "replay"), exist_ok=True)
+    os.makedirs(os.path.join(ev_dir, "replay"), exist_ok=True)
     viol_summ = []
     for key in sorted(violations):
         v = violations[key]
@@ -275,7 +278,7 @@ def run_check(modname, tier, seed, replay_path=None, jobs=None):
             viol_summ.append({"key": key, "count": v["count"], "known": k["id"]})
             continue
         n_viol += 1
-        rp = os.path.join(VERIF_ROOT, "evidence", "replay", "%s-%s.json" % (prop, h(key)))
+        rp = os.path.join(ev_dir, "replay", "%s-%s.json" % (prop, h(key)))
         with open(rp, "w") as f:
             json.dump({"property": prop, "key": key, "what": v["what"], "detail": v["detail"],
                        "module": modname, "fw": v.get("fw"), "env": v.get("env"),
@@ -317,7 +320,7 @@ def run_check(modname, tier, seed, replay_path=None, jobs=None):
         ev = {"property_id": prop, "tier": tier, "seed": seed, "level": mod.LEVEL,
               "coverage": cov, "assumptions": list(getattr(mod, "ASSUMPTIONS", [])),
               "wall_s": round(wall, 2), "violations": n_viol, "known_findings_matched": n_known}
-        with open(os.path.join(VERIF_ROOT, "evidence", prop + ".json"), "w") as f:
+        with open(os.path.join(ev_dir, prop + ".json"), "w") as f:
             json.dump(ev, f, indent=1, default=repr)
     # ---- cleanup scratch
     try:
